@@ -166,7 +166,11 @@ func c17WorkdirLattice(ctx *core.Ctx) {
 			for _, alt := range []string{"AltProj", "_.", "Ω-alt", "proj"} {
 				for _, named := range []bool{false, true} {
 					for _, withDot := range []int{0, 1, 2, 3} {
-						a := c17Args{Dir: dir, AltDir: alt, OS: []string{"W=os"}, Probe: "${V-unset}|${COMPOSE_PROJECT_NAME}"}
+						a := c17Args{Dir: dir, AltDir: alt, OS: []string{"W=os"}, Probe: "${V-unset}|${COMPOSE_PROJECT_NAME}",
+							DirLink: withDot == 1 || withDot == 2, AltLink: withDot >= 2}
+						if a.DirLink || a.AltLink {
+							ctx.Count("symlinked-project-directory")
+						}
 						if named {
 							a.Files = [][]c17Doc{{{}}, {{Name: sp("${V:-fromfile}")}}}
 						} else {
@@ -429,6 +433,12 @@ func c17Random(r *rand.Rand, documented, malformed bool) c17Args {
 			at = r.Intn(len(a.Opts) + 1)
 		}
 		a.Opts = append(a.Opts[:at:at], append(wd, a.Opts[at:]...)...)
+	}
+	if r.Intn(6) == 0 {
+		a.DirLink = true
+	}
+	if r.Intn(6) == 0 {
+		a.AltLink = true
 	}
 	// WithName anywhere
 	if r.Intn(3) == 0 {
